@@ -34,8 +34,16 @@ for d in sorted(glob.glob(os.path.join(V, "seeded", "*"))):
         continue
     m = json.load(open(mp))
     det = m.get("detection", {})
-    rows.append("| %s | %s | %s | %s | %s |" % (os.path.basename(d), m.get("property", ""), esc(m.get("summary", ""))[:200], esc(det.get("detected", "?")), esc(det.get("how", ""))[:260]))
-seeded_md = "| seed | property | change | detected | by which check / signature |\n|---|---|---|---|---|\n" + "\n".join(rows)
+    lv = det.get("last_verified") or {}
+    st = m.get("stale")
+    if st:
+        state = "applies to /repo %s only (rewritten by %s)" % (st.get("applies_to_repo_commit"), st.get("superseded_by"))
+    elif lv:
+        state = "%s by ./check %s on /repo %s" % (lv.get("verdict"), lv.get("by_check"), lv.get("repo_head"))
+    else:
+        state = "not re-run since it was kept"
+    rows.append("| %s | %s | %s | %s | %s | %s |" % (os.path.basename(d), m.get("property", ""), esc(m.get("summary", ""))[:200], esc(det.get("detected", "?")), esc(det.get("how", ""))[:260], esc(state)))
+seeded_md = "| seed | property | change | detected | by which check / signature | last re-run (tools/seed_sweep.py) |\n|---|---|---|---|---|---|\n" + "\n".join(rows)
 seeded_md = ("%d seeded changes (each: compiles, pinned suite unchanged, own demonstration fails with it and passes without — confirmed independently).\n\n" % len(rows)) + seeded_md
 
 # per-property status from claims + last evidence
